@@ -1040,10 +1040,15 @@ impl Drop for IoUring {
                 self.submission_queue.ring_ptr,
                 NonZeroUsize::new(self.submission_queue.ring_size).unwrap(),
             );
-            let _ = munmap(
-                self.completion_queue.ring_ptr,
-                NonZeroUsize::new(self.completion_queue.ring_size).unwrap(),
-            );
+            // With `IORING_FEAT_SINGLE_MMAP` the completion ring lives in the submission ring's
+            // mapping, which was unmapped above; unmapping that range again could hit an
+            // unrelated mapping created in the meantime.
+            if self.completion_queue.ring_ptr != self.submission_queue.ring_ptr {
+                let _ = munmap(
+                    self.completion_queue.ring_ptr,
+                    NonZeroUsize::new(self.completion_queue.ring_size).unwrap(),
+                );
+            }
         }
         let _ = crate::unistd::close(self.fd);
     }
